@@ -349,6 +349,10 @@ impl ListenerRegistry {
     }
 
     fn register_mid(&mut self, mid: String, tx: mpsc::Sender<(RtpPacket, SocketAddr)>) {
+        // A receiver stands for one media section: when its MID changes, the
+        // entry under the old MID must go, or packets naming the old section
+        // keep reaching a receiver that now belongs to another one.
+        self.by_mid.retain(|_, existing| !existing.same_channel(&tx));
         self.by_mid.insert(mid.clone(), tx.clone());
         self.route_for_sender_mut(&tx).mid = Some(mid);
     }
